@@ -1071,6 +1071,9 @@ func (e *evalCtx) selector(t *ast.SelectorExpr) Val {
 		if wantAddr {
 			return fp
 		}
+		if _, isStruct := ft.Underlying().(*types.Struct); isStruct && types.TypeString(ft, nil) != "time.Time" {
+			return fp // a struct stored by value is used through its address (x.d.f, x.d.arr[i])
+		}
 		return e.load(fp, ft)
 	case kStruct:
 		st := x.T.Underlying().(*types.Struct)
